@@ -614,3 +614,16 @@ Proof.
     + intros (b & G & <-). apply get_In in G. now destruct (I1 _ _ G) as (_&_&Hin&_).
     + intros Hin. exact (I2 _ _ _ Hin).
 Qed.
+
+(* ------------------------------------------------------------------ *)
+(* Boolean checker for the side condition (sound and complete on wf maps) *)
+
+Definition no_oneshot_inflight_b (s : State) : bool :=
+  forallb (fun kc => c_rep (snd kc) || (c_counter (snd kc) =? 0)) (ctxs s).
+
+Lemma no_oneshot_inflight_b_sound s : no_oneshot_inflight_b s = true -> no_oneshot_inflight s.
+Proof.
+  unfold no_oneshot_inflight_b, no_oneshot_inflight. intros Hb c rc G Hrep.
+  rewrite forallb_forall in Hb. specialize (Hb _ (get_In _ _ _ G)). cbn [snd] in Hb.
+  rewrite Hrep in Hb. cbn [orb] in Hb. now apply Z.eqb_eq.
+Qed.
